@@ -33,6 +33,11 @@
 (*                         subtype of a common import and the supertype of *)
 (*                         a common export are kept.  FALSE = the merged   *)
 (*                         type is the greatest common subtype (CMerge).   *)
+(*   DEV_SharedRemap       (code as it is, KF29) one instance type         *)
+(*                         definition imported under several plain names   *)
+(*                         is remapped once: a later merge into one of the *)
+(*                         names changes the others.  FALSE = every import *)
+(*                         has a definition of its own.                    *)
 (*                                                                         *)
 (* The state machine appends one contributor at a time; invariants tie     *)
 (* the Impl state to the contract for every history (= every order).       *)
@@ -44,7 +49,8 @@ CONSTANTS MaxContrib,           \* longest history
           DEV_NestedSupertype,
           DEV_OwnerImportTwice,
           DEV_OwnerNaming,
-          DEV_WorldMerge
+          DEV_WorldMerge,
+          DEV_SharedRemap
 
 Contrib(id) == AG_Contribs[id]
 
@@ -280,7 +286,8 @@ First(S) == CHOOSE i \in S : \A j \in S : i <= j
 RemoveAt(s, i) == [j \in 1..(Len(s) - 1) |-> IF j < i THEN s[j] ELSE s[j + 1]]
 
 \* ids: Key -> the id the one definition of a named interface carries (the name it was first met by)
-InitSt == [imports |-> <<>>, ifc |-> <<>>, redir |-> <<>>, failed |-> FALSE, ids |-> <<>>]
+\* shared: <<position, definition>> -> the import names that were remapped from that one instance type definition
+InitSt == [imports |-> <<>>, ifc |-> <<>>, redir |-> <<>>, failed |-> FALSE, ids |-> <<>>, shared |-> <<>>]
 
 \* the body of TypeAggregator::aggregate(name, kind): exact name, track, fresh remap
 AggregateMain(st, req) ==
@@ -346,7 +353,7 @@ EnsureOwner(s, o) ==
                   ELSE s
 
 \* TypeAggregator::aggregate(name, kind)
-AggregateOne(st, req) ==
+AggregateOne(st, req, pos) ==
   LET s1 == AggregateMain(st, req)
       k == req.kind
       named == IsIfaceName(req.name) /\ k.c = "inst"
@@ -359,10 +366,37 @@ AggregateOne(st, req) ==
       owners == SeqOfSet({k.us[n].iface : n \in {m \in OwnerLocals(k) : isNew(m)}})
       RECURSIVE F(_, _)
       F(s, i) == IF i > Len(owners) THEN s ELSE F(EnsureOwner(s, owners[i]), i + 1)
-  IN IF st.failed \/ s1.failed THEN s1 ELSE F(s2, 1)
+      s3 == F(s2, 1)
+      \* --- the remap table (DEV_SharedRemap, KF29): a contributor may import ONE instance type definition under
+      \* several plain names (req.grp # 0 names the definition).  The first of them that is remapped afresh
+      \* creates the aggregated definition, every later one that is remapped afresh gets THE SAME definition from
+      \* the table -- so a later merge into any of them changes all of them.  (A member that was merged into an
+      \* existing import instead of being remapped does not enter the table.)
+      fresh == Len(s1.imports) = Len(st.imports) + 1 /\ s1.imports[Len(s1.imports)].n.s = req.name.s /\ ~named
+      gid == <<pos, req.grp>>
+      s4 == IF req.grp = 0 \/ ~fresh THEN s3
+            ELSE LET members == IF gid \in DOMAIN s3.shared THEN s3.shared[gid] ELSE {}
+                     \* the kind of the definition as it is now (an earlier member may have been merged into since)
+                     first == IF members = {} THEN req.name.s ELSE CHOOSE m \in members : TRUE
+                     cur == CHOOSE i \in DOMAIN s3.imports : s3.imports[i].n.s = first
+                     fi == CHOOSE i \in DOMAIN s3.imports : s3.imports[i].n.s = req.name.s
+                 IN [s3 EXCEPT !.shared = (gid :> (members \cup {req.name.s})) @@ s3.shared,
+                               !.imports[fi].k = IF DEV_SharedRemap THEN s3.imports[cur].k ELSE @]
+      \* a merge into an import that shares its definition reaches the other names of the definition
+      touched == IF req.name.s \in DOMAIN s4.redir THEN s4.redir[req.name.s] ELSE req.name.s
+      tix == {i \in DOMAIN s4.imports : s4.imports[i].n.s = touched}
+      s5 == IF ~DEV_SharedRemap \/ fresh \/ tix = {} THEN s4
+            ELSE LET ti == CHOOSE i \in tix : TRUE
+                     mates == UNION {G \in {s4.shared[g] : g \in DOMAIN s4.shared} : touched \in G}
+                 IN [s4 EXCEPT !.imports = [i \in DOMAIN s4.imports |->
+                                              IF s4.imports[i].n.s \in mates THEN [s4.imports[i] EXCEPT !.k = s4.imports[ti].k]
+                                              ELSE s4.imports[i]]]
+  IN IF st.failed \/ s1.failed THEN s1 ELSE s5
 
-RECURSIVE AggregateAll(_, _)
-AggregateAll(st, reqs) == IF reqs = <<>> THEN st ELSE AggregateAll(AggregateOne(st, Head(reqs)), Tail(reqs))
+\* pos: the position of the contributor in the history (every contributor has its own type collection)
+RECURSIVE AggregateAll(_, _, _)
+AggregateAll(st, reqs, pos) ==
+  IF reqs = <<>> THEN st ELSE AggregateAll(AggregateOne(st, Head(reqs), pos), Tail(reqs), pos)
 
 \* a used interface is identified up to compatibility (which contributor's spelling is kept is unspecified)
 RECURSIVE NormKind(_)
@@ -385,7 +419,7 @@ Next ==
   /\ ~st.failed
   /\ \E c \in Focus :
        /\ hist' = Append(hist, c)
-       /\ st' = AggregateAll(st, Contrib(c).reqs)
+       /\ st' = AggregateAll(st, Contrib(c).reqs, Len(hist) + 1)
 Spec == Init /\ [][Next]_vars
 
 (***************************************************************************)
@@ -398,8 +432,15 @@ WorldShape(h) ==
   \E r1, r2 \in Explicit(h) : /\ Key(r1.name) = Key(r2.name) /\ r1.kind.c \in {"comp", "mod"}
                               /\ r1.kind.c = r2.kind.c /\ r1.kind # r2.kind
 WorldExcused(h) == DEV_WorldMerge /\ WorldShape(h)
+\* KF29 (DEV_SharedRemap): a contributor imports one instance type definition under two plain names and some
+\* requirement for one of the names differs from it: the merge reaches the other name too
+SharedShape(h) ==
+  \E i \in DOMAIN h : \E r1, r2 \in Range(Contrib(h[i]).reqs) :
+    /\ r1.grp # 0 /\ r1.grp = r2.grp /\ r1.name # r2.name
+    /\ \E r3 \in Explicit(h) : Key(r3.name) = Key(r1.name) /\ r3.kind # r1.kind
+SharedExcused(h) == DEV_SharedRemap /\ SharedShape(h)
 \* fails exactly when two contributors are incompatible
-FailsExactly == ~WorldExcused(hist) => st.failed = Fails(hist)
+FailsExactly == ~WorldExcused(hist) /\ ~SharedExcused(hist) => st.failed = Fails(hist)
 \* one import per key, under the highest version; merged kinds are the unions; names are unique
 \* KF24 (DEV_OwnerNaming): the import of a resource's owner is named outside the supersede logic.  Its name
 \* agrees with the contract in every order only when the highest name spelled on that track is an explicit
@@ -409,13 +450,13 @@ OwnerNameShape(h) ==
     LET ns == {r.name : r \in {x \in AllReqs(h) : Key(x.name) = Key(o.name)}}
         top == CHOOSE n \in ns : \A m \in ns : m = n \/ m.ver = <<>> \/ Higher(n, m)
     IN ~\E r \in Explicit(h) : r.name = top
-Excused(h) == (DEV_OwnerNaming /\ OwnerNameShape(h)) \/ WorldExcused(h)
+Excused(h) == (DEV_OwnerNaming /\ OwnerNameShape(h)) \/ WorldExcused(h) \/ SharedExcused(h)
 MatchesContract == ~st.failed /\ ~Fails(hist) /\ ~Excused(hist) => ImplImports(st) = {[name |-> i.name, kind |-> NormKind(i.kind)] : i \in ContractImports(hist)}
 UniqueNames == \A i, j \in DOMAIN st.imports : st.imports[i].n.s = st.imports[j].n.s => i = j
 \* whatever an import is called (also in the excused histories): one import per compatibility key, of the merged kind
 OneImportPerKey == ~st.failed => \A i, j \in DOMAIN st.imports : Key(st.imports[i].n) = Key(st.imports[j].n) => i = j
 MatchesByKey ==
-  ~st.failed /\ ~Fails(hist) /\ ~WorldExcused(hist) =>
+  ~st.failed /\ ~Fails(hist) /\ ~WorldExcused(hist) /\ ~SharedExcused(hist) =>
     {[key |-> Key(st.imports[i].n), kind |-> NormKind(ImportKind(st, st.imports[i]))] : i \in DOMAIN st.imports}
       = {[key |-> k, kind |-> NormKind(MergedKind(hist, k))] : k \in {Key(r.name) : r \in Required(hist)}}
 \* every lower name is redirected to the canonical name, which is imported (chains have length one)
@@ -431,6 +472,11 @@ Satisfies ==
       \E i \in DOMAIN st.imports :
         /\ st.imports[i].n.s = ImplCanon(st, r.name.s)
         /\ Sub(ImportKind(st, st.imports[i]), r.kind)
+\* (nothing excused: refuted for the code as it is, Agg_found4.cfg)
+MatchesByKeyAll ==
+  ~st.failed /\ ~Fails(hist) =>
+    {[key |-> Key(st.imports[i].n), kind |-> NormKind(ImportKind(st, st.imports[i]))] : i \in DOMAIN st.imports}
+      = {[key |-> k, kind |-> NormKind(MergedKind(hist, k))] : k \in {Key(r.name) : r \in Required(hist)}}
 \* (the same with nothing excused: refuted for the code as it is, Agg_found3.cfg)
 SatisfiesAll ==
   ~st.failed =>
@@ -441,6 +487,6 @@ SatisfiesAll ==
 \* the contract is a function of the multiset: nothing above mentions the order of hist.  Idempotence:
 Idempotent ==
   ~st.failed => \A c \in {hist[i] : i \in DOMAIN hist} :
-                  LET again == AggregateAll(st, Contrib(c).reqs)
+                  LET again == AggregateAll(st, Contrib(c).reqs, Len(hist) + 1)
                   IN ~again.failed /\ ImplImports(again) = ImplImports(st)
 ====
